@@ -66,6 +66,23 @@ theorem C19_writers_sound (w : String × Skel) (hw : w ∈ Generated.C19.writers
 
 example : Generated.C19.writers.length ≥ 50 := by decide
 
+/-- the matcher the driver runs on every real token stream (`skel` lines) is sound: a stream it
+accepts is one the skeleton can produce … -/
+theorem C19_matcher_sound (s : Skel) (ts : List Tok) (h : accepts s ts = true) : Gen s ts :=
+  accepts_sound s ts h
+
+/-- … hence balanced whenever the skeleton passes the syntactic check -/
+theorem C19_accepted_balanced (s : Skel) (ts : List Tok) (hs : balancedSkel s = true)
+    (h : accepts s ts = true) : balanced ts = true :=
+  C19_balanced s ts hs (accepts_sound s ts h)
+
+example : accepts (.wrap (.many (.alt (.wrap .chars) .ext)))
+    [Tok.start ⟨"", "x"⟩ [], Tok.start ⟨"", "v"⟩ [], Tok.chars "t", Tok.stop ⟨"", "v"⟩,
+     Tok.start ⟨"u", "f"⟩ [], Tok.stop ⟨"u", "f"⟩, Tok.stop ⟨"", "x"⟩] = true := by decide
+
+example : accepts (.wrap .chars) [Tok.start ⟨"", "x"⟩ [], Tok.start ⟨"", "v"⟩ [], Tok.stop ⟨"", "v"⟩, Tok.stop ⟨"", "x"⟩] = false := by
+  decide
+
 /-- every element tree flattens to a balanced token stream -/
 theorem C19_tree_balanced (n : Node) : balanced (flatten n) = true :=
   balanced_of_depth (depthAfter_flatten n 0)
